@@ -131,6 +131,9 @@ def may_raise(node):
     if node is None:
         return False
     for n in ast.walk(node):
+        # isinstance(<name>, <name or tuple of names>) of the builtin does not raise
+        if isinstance(n, ast.Call) and isinstance(n.func, ast.Name) and n.func.id == "isinstance" and len(n.args) == 2 and not n.keywords and isinstance(n.args[0], ast.Name) and (isinstance(n.args[1], (ast.Name, ast.Attribute)) or (isinstance(n.args[1], ast.Tuple) and all(isinstance(x, (ast.Name, ast.Attribute)) for x in n.args[1].elts))):
+            continue
         if isinstance(n, (ast.Call, ast.Raise, ast.Assert, ast.Yield, ast.YieldFrom)):
             return True
         if isinstance(n, ast.Subscript) and isinstance(n.ctx, (ast.Load, ast.Del)):
